@@ -96,6 +96,23 @@ PROPS = {
   'trusted_base': ['hand model of src/decoder/stream.rs in coq/Model/Stream.v, tied by differential execution', 'fdeflate Adler-32 behaviour by contract'],
   'assumptions': ['"result" = Reader-level metadata + pixels (the CRC value carried inside ChunkComplete events is not part of it)'],
  },
+ 'C16': {
+  'level_text': 'Coq theorems (closed under the global context) about the chunk parsers of the stream-machine model: for ALL legal field values the parser applied to the '
+                'specification\'s big-endian layout stores exactly those values (gAMA, pHYs, cHRM, sRGB, acTL, cLLI, fcTL with all nine fields, text keyword splitting); later '
+                'instances of first-wins kinds change nothing; duplicates of gAMA/cHRM/sRGB/pHYs/tRNS are parser errors that (benign list regenerated from the source) never '
+                'leave parse_chunk; unknown chunk types touch only the control state; no parser touches the byte counter/control state. Tied and searched on every run by a '
+                'reference writer with expectations computed from the values.',
+  'level_note': 'Trusted: Coq kernel; hand model of the parsers in stream.rs tied by differential execution; translator for the benign list and chunk constants; iCCP/zTXt/iTXt inflate by contract '
+                '(reference inflater in the correspondence); Latin-1/UTF-8 decoding of text is C20.',
+  'gen_items': ['parse_chunk.benign', 'chunk.consts'],
+  'model_name': 'Model/Stream.v per-chunk parsers and parse_chunk',
+  'rule': 'cases = per generated base image (all 15 colour/depth pairs, both interlace methods): each of 15 ancillary kinds with arbitrary legal values (boundary u32s, random blobs, '
+          'Latin-1/UTF-8 strings, payloads crossing the 32 KiB buffer) placed before PLTE / before IDAT / after IDAT -> the Info field must equal the value; a second instance with other '
+          'values -> first kept; sRGB present/absent -> gamma()/chromaticities() accessors; malformed or misplaced benign kinds, garbage iCCP, unknown ancillary chunks -> result identical '
+          'to the file without them. distinct = (kind, colour type, position, payload size class).',
+  'trusted_base': ['hand model of the chunk parsers in coq/Model/Stream.v, tied by differential execution', 'reference chunk writer in harness/src/c16.rs'],
+  'assumptions': ['field values within their types (u32/u16/u8); keywords 1..79 bytes without NUL'],
+ },
 }
 
 NOT_APPLICABLE = {}
